@@ -28,14 +28,25 @@ static const uint8_t ALPHA[] = {IAC, SB, SE, WILL, DO, NOP, 1, 31, 0x1b, '[', 'A
 enum { NALPHA = sizeof ALPHA };
 
 // a case = segments delivered one after the other (each followed by a loop run) + flags
-enum { F_PROBE = 1, F_FILL = 2 };   // F_FILL: pad the last segment so that it fills the connection's receive buffer exactly
+enum { F_PROBE = 1, F_FILL = 2,     // F_FILL: pad the last segment so that it fills the connection's receive buffer exactly
+       F_EOF_WITH_LAST = 4,         // the client closes its socket in the same step as it sends the last segment (data and EOF reach the loop together: `echo cmd | nc`)
+       F_SHUTWR_WITH_LAST = 8,      // the client shuts down its sending direction in the same step as it sends the last segment
+       F_BYSTANDER = 16,            // a second client is connected first and has typed "p 7" without Enter; after the case it sends CR LF and must be answered exactly once
+       F_RUNS_P1 = 32 };            // the input starts with the line "p 1": the probe must have run [p,1] exactly once, first, by the end of the case
 struct Case { std::vector<std::string> segs; int flags = F_PROBE; std::string family; };
 static std::string ser(const Case &c) { std::string s; s.push_back((char)c.flags); for (auto &g : c.segs) { s.push_back((char)g.size()); s += g; } return s; }
 static Case deser(const std::string &s) { Case c; c.flags = (unsigned char)s[0]; for (size_t p = 1; p < s.size();) { size_t n = (unsigned char)s[p]; c.segs.push_back(s.substr(p + 1, n)); p += 1 + n; } return c; }
-static std::string show(const Case &c) { std::string o; for (auto &g : c.segs) o += "[" + esc(g) + "]"; if (c.flags & F_FILL) o += " (last segment left-padded with 'a' to the free space of the receive buffer)"; if (!(c.flags & F_PROBE)) o += " (no probe: session ends)"; return o; }
+static std::string show(const Case &c) { std::string o; for (auto &g : c.segs) o += "[" + esc(g) + "]"; if (c.flags & F_FILL) o += " (last segment left-padded with 'a' to the free space of the receive buffer)";
+  if (c.flags & F_EOF_WITH_LAST) o += " (client closes in the same step as the last segment)"; if (c.flags & F_SHUTWR_WITH_LAST) o += " (client shuts down its sending side in the same step as the last segment)";
+  if (c.flags & F_BYSTANDER) o += " (a second client connected first, typed 'p 7', and sends CR LF after this client is done)";
+  if (!(c.flags & F_PROBE)) o += " (no probe: session ends)"; return o; }
 
 // what the input looks like (names a crash): the first telnet construct in the concatenated bytes
+static std::string shape_core(const std::string &fe, const Case &c);
 static std::string shape_of(const std::string &fe, const Case &c) {
+  return shape_core(fe, c) + ((c.flags & (F_EOF_WITH_LAST | F_SHUTWR_WITH_LAST)) ? "-then-eof-in-the-same-step" : "") + ((c.flags & F_BYSTANDER) ? "-with-a-second-client" : "");
+}
+static std::string shape_core(const std::string &fe, const Case &c) {
   std::string b; for (auto &g : c.segs) b += g;
   for (auto &g : c.segs) { size_t p = g.find("exit"); if (p != std::string::npos && (g.find("exit", p + 4) != std::string::npos || g.find("!", p) != std::string::npos)) return "double-exit-in-one-segment"; }
   if (b.find("exit") != std::string::npos || b.find("quit") != std::string::npos) return "exit-command";
@@ -93,54 +104,103 @@ static network::TcpServer *server() { return g_telnetd ? g_telnetd->impl_->sp_tc
 static network::TcpServer::ConnToken conn_token() { return g_telnetd ? g_telnetd->impl_->client_to_session_.begin()->first : g_tcprpc->impl_->client_to_session_.begin()->first; }
 static std::string drain(int fd) { std::string o; char b[4096]; ssize_t k; while ((k = read(fd, b, sizeof b)) > 0) o.append(b, (size_t)k); return o; }
 
+static bool has_session(const network::TcpServer::ConnToken &ct) { return g_telnetd ? g_telnetd->impl_->client_to_session_.count(ct) != 0 : g_tcprpc->impl_->client_to_session_.count(ct) != 0; }
+// the connection that is not `a` (two clients connected)
+static network::TcpServer::ConnToken other_token(const network::TcpServer::ConnToken &a) {
+  if (g_telnetd) { for (auto &kv : g_telnetd->impl_->client_to_session_) if (kv.first != a) return kv.first; }
+  else { for (auto &kv : g_tcprpc->impl_->client_to_session_) if (kv.first != a) return kv.first; }
+  return network::TcpServer::ConnToken();
+}
+static int connect_client() {
+  int fd = socket(AF_UNIX, SOCK_STREAM | SOCK_NONBLOCK | SOCK_CLOEXEC, 0);
+  struct sockaddr_un sa; memset(&sa, 0, sizeof sa); sa.sun_family = AF_UNIX; strncpy(sa.sun_path, g_path.c_str(), sizeof sa.sun_path - 1);
+  if (fd < 0 || connect(fd, (struct sockaddr *)&sa, sizeof sa) != 0) { if (fd >= 0) close(fd); return -1; }
+  return fd;
+}
+
 static const std::string RESYNC = std::string("\0\0", 2) + "\xff\xf0";   // closes any open IAC / IAC SB state (see check.py assumptions)
 
 // returns "" or "<signature> <details>"
 static std::string run_case(const Case &c, std::string *digest = nullptr) {
   if (!g_loop) setup();
   g_case_no++;
-  std::string shape = shape_of(g_fe, c), viol, pending, reply; bool direct = g_mode == "direct", gone = false;
-  int fd = socket(AF_UNIX, SOCK_STREAM | SOCK_NONBLOCK | SOCK_CLOEXEC, 0);
-  struct sockaddr_un sa; memset(&sa, 0, sizeof sa); sa.sun_family = AF_UNIX; strncpy(sa.sun_path, g_path.c_str(), sizeof sa.sun_path - 1);
-  if (fd < 0 || connect(fd, (struct sockaddr *)&sa, sizeof sa) != 0) { g_worker.poisoned = true; if (fd >= 0) close(fd); return "harness-cannot-connect errno=" + std::to_string(errno); }
-  network::TcpServer::ConnToken ct;
-  auto deliver = [&](std::string seg, bool fill) {
-    if (gone || !viol.empty()) return;
-    if (n_sessions() != 1) { gone = true; return; }          // the service ended the session: nothing more can be received
+  std::string shape = shape_of(g_fe, c), viol, reply; bool direct = g_mode == "direct", gone = false, by = (c.flags & F_BYSTANDER) != 0;
+  struct Client { int fd = -1; network::TcpServer::ConnToken ct; std::string pending; } A, B;   // B: the client of the case; A: the bystander (F_BYSTANDER)
+  g_calls.clear();
+  int first = connect_client();
+  if (first < 0) { g_worker.poisoned = true; return "harness-cannot-connect errno=" + std::to_string(errno); }
+  (by ? A : B).fd = first;
+  // bytes to one client's connection; false = the peer has closed
+  auto send_to = [&](Client &cl, std::string seg, bool fill) -> bool {
     if (!direct) {
-      if (fill) { util::Buffer *rb = server()->getClientReceiveBuffer(ct); size_t room = rb ? rb->writableSize() : 0; if (room >= seg.size() && room <= 4096) seg = std::string(room - seg.size(), 'a') + seg; }
-      if (!seg.empty() && write(fd, seg.data(), seg.size()) != (ssize_t)seg.size()) gone = true;   // peer closed
-      return;
+      if (fill) { util::Buffer *rb = server()->getClientReceiveBuffer(cl.ct); size_t room = rb ? rb->writableSize() : 0; if (room >= seg.size() && room <= 4096) seg = std::string(room - seg.size(), 'a') + seg; }
+      return seg.empty() || write(cl.fd, seg.data(), seg.size()) == (ssize_t)seg.size();
     }
-    std::string data = pending + seg; if (data.empty()) return;
+    std::string data = cl.pending + seg; if (data.empty()) return true;
     util::Buffer b(data.size()); b.append(data.data(), data.size());      // capacity == content
-    if (g_telnetd) g_telnetd->impl_->onTcpReceived(ct, b); else g_tcprpc->impl_->onTcpReceived(ct, b);
-    pending.assign((const char *)b.readableBegin(), b.readableSize());
+    if (g_telnetd) g_telnetd->impl_->onTcpReceived(cl.ct, b); else g_tcprpc->impl_->onTcpReceived(cl.ct, b);
+    cl.pending.assign((const char *)b.readableBegin(), b.readableSize());
+    return true;
+  };
+  auto deliver = [&](const std::string &seg, bool fill) {
+    if (gone || !viol.empty()) return;
+    if (!has_session(B.ct)) { gone = true; return; }          // the service ended the session: nothing more can be received
+    if (!send_to(B, seg, fill)) gone = true;
+  };
+  auto eof_with_last = [&] {
+    if (B.fd < 0 || !viol.empty()) return;
+    if (c.flags & F_EOF_WITH_LAST) { close(B.fd); B.fd = -1; } else if (c.flags & F_SHUTWR_WITH_LAST) shutdown(B.fd, SHUT_WR);
   };
   // one step per idle point of the loop: the loop has fully digested the previous step (incl. deferred closures)
   std::vector<std::function<void()>> steps;
+  if (by) {
+    steps.push_back([&] {                             // bystander accepted: it types a command without Enter
+      if (n_sessions() != 1) { viol = "harness-no-session-after-connect sessions=" + std::to_string(n_sessions()); g_worker.poisoned = true; return; }
+      drain(A.fd); A.ct = conn_token(); if (!send_to(A, "p 7", false)) { viol = "harness-bystander-cannot-send"; g_worker.poisoned = true; } });
+    steps.push_back([&] { if (!viol.empty()) return; B.fd = connect_client(); if (B.fd < 0) { viol = "harness-cannot-connect errno=" + std::to_string(errno); g_worker.poisoned = true; } });
+  }
   steps.push_back([&] {                               // accepted: session created, greeting sent
-    if (n_sessions() != 1) { viol = "harness-no-session-after-connect sessions=" + std::to_string(n_sessions()); g_worker.poisoned = true; return; }
-    drain(fd); ct = conn_token(); deliver(c.segs[0], (c.flags & F_FILL) && c.segs.size() == 1); });
-  for (size_t i = 1; i < c.segs.size(); i++) steps.push_back([&, i] { deliver(c.segs[i], (c.flags & F_FILL) && i + 1 == c.segs.size()); });
+    if (!viol.empty()) return;
+    if (n_sessions() != (by ? 2u : 1u)) { viol = "harness-no-session-after-connect sessions=" + std::to_string(n_sessions()); g_worker.poisoned = true; return; }
+    drain(B.fd); B.ct = by ? other_token(A.ct) : conn_token(); deliver(c.segs[0], (c.flags & F_FILL) && c.segs.size() == 1); if (c.segs.size() == 1) eof_with_last(); });
+  for (size_t i = 1; i < c.segs.size(); i++) steps.push_back([&, i] { deliver(c.segs[i], (c.flags & F_FILL) && i + 1 == c.segs.size()); if (i + 1 == c.segs.size()) eof_with_last(); });
   if (c.flags & F_PROBE) {
     steps.push_back([&] { deliver(RESYNC + "\r\n", false); });
-    steps.push_back([&] { drain(fd); g_calls.clear(); deliver("p 7\r\n", false); });
+    steps.push_back([&] { drain(B.fd); g_calls.clear(); deliver("p 7\r\n", false); });
     steps.push_back([&] {
       if (!viol.empty()) return;
-      reply = drain(fd);
+      reply = drain(B.fd);
       bool called = g_calls.size() == 1 && g_calls[0].size() == 2 && g_calls[0][0] == "p" && g_calls[0][1] == "7";
       if (!called || reply.find("PROBE<7>") == std::string::npos)
         viol = "session-does-not-answer-probe-after-" + shape + " probe_calls=" + std::to_string(g_calls.size()) + " reply='" + esc(reply.substr(0, 60)) + "' sessions=" + std::to_string(n_sessions()); });
   }
-  steps.push_back([&] { close(fd); fd = -1; });       // EOF -> session released, connection deleted on a later pass
+  steps.push_back([&] { if (B.fd >= 0) { close(B.fd); B.fd = -1; } });       // EOF -> session released, connection deleted on a later pass
+  if (c.flags & F_RUNS_P1)
+    steps.push_back([&] {                             // the line that arrived together with the EOF was executed, once
+      if (!viol.empty()) return;
+      size_t n = 0; for (auto &a : g_calls) if (a.size() == 2 && a[0] == "p" && a[1] == "1") n++;
+      if (n != 1 || g_calls[0].size() != 2 || g_calls[0][1] != "1") viol = "line-sent-before-eof-not-executed-exactly-once-" + shape + " p1_calls=" + std::to_string(n) + " all_calls=" + std::to_string(g_calls.size()); });
+  if (by) {
+    steps.push_back([&] {                             // the other client is done (and gone): the bystander presses Enter
+      if (!viol.empty()) return;
+      if (!has_session(A.ct)) { viol = "second-clients-session-ended-by-" + shape + " sessions=" + std::to_string(n_sessions()); return; }
+      drain(A.fd); g_calls.clear(); if (!send_to(A, "\r\n", false)) viol = "second-clients-connection-closed-by-" + shape; });
+    steps.push_back([&] {
+      if (!viol.empty()) return;
+      std::string r = drain(A.fd);
+      bool called = g_calls.size() == 1 && g_calls[0].size() == 2 && g_calls[0][0] == "p" && g_calls[0][1] == "7";
+      if (!called || count_sub(r, "PROBE<7>") != 1)
+        viol = "second-client-not-answered-exactly-once-after-" + shape + " probe_calls=" + std::to_string(g_calls.size()) + " reply='" + esc(r.substr(0, 60)) + "' sessions=" + std::to_string(n_sessions()); });
+    steps.push_back([&] { if (A.fd >= 0) { close(A.fd); A.fd = -1; } });
+  }
   try {
     run_steps(g_loop, steps);
     if (n_sessions() != 0) g_worker.poisoned = true;  // do not carry a leftover session into the next case
   } catch (const std::exception &e) {
     viol = shape + "-uncaught-exception what=" + e.what(); g_worker.poisoned = true;
   }
-  if (fd >= 0) close(fd);
+  if (A.fd >= 0) close(A.fd);
+  if (B.fd >= 0) close(B.fd);
   if (digest) *digest = g_spy.digest();
   return viol;
 }
@@ -247,6 +307,19 @@ int main(int argc, char **argv) {
   // family "teardown": exit through the front end (session teardown is deferred to the next loop pass)
   for (auto &segs : std::vector<std::vector<std::string>>{{"exit\r\n"}, {"quit\r\n"}, {"exit\r\nexit\r\n"}, {"exit\r\n", "exit\r\n"}, {"p 1\r\nexit\r\np 2\r\n"}, {"exit;exit\r\n"}, {"exit\r\n!!\r\n"}})
     if (sw.mine()) { Case c; c.family = "teardown"; c.flags = 0; c.segs = segs; sw.eval(c); }
+  // family "teardown-eof": the last bytes and the end of the connection reach the loop together (`echo cmd | nc`, a client that dies mid-frame)
+  { struct T { std::vector<std::string> segs; int flags; };
+    std::vector<T> ts = { {{"exit\r\n"}, F_EOF_WITH_LAST}, {{"exit\r\n"}, F_SHUTWR_WITH_LAST}, {{"exit\r\nexit\r\n"}, F_EOF_WITH_LAST}, {{"exit\r\n", "exit\r\n"}, F_EOF_WITH_LAST},
+      {{"p 1\r\n"}, F_EOF_WITH_LAST | F_RUNS_P1}, {{"p 1\r\n"}, F_SHUTWR_WITH_LAST | F_RUNS_P1}, {{"p 1", "\r\n"}, F_EOF_WITH_LAST | F_RUNS_P1}, {{"p 1\r\nexit\r\n"}, F_EOF_WITH_LAST | F_RUNS_P1},
+      {{"p 1\r\nexit\r\n"}, F_SHUTWR_WITH_LAST | F_RUNS_P1}, {{""}, F_EOF_WITH_LAST}, {{"a"}, F_EOF_WITH_LAST}, {{"\r"}, F_EOF_WITH_LAST}, {{"\033"}, F_EOF_WITH_LAST},
+      {{B({IAC})}, F_EOF_WITH_LAST}, {{B({IAC, SB, 31, 0})}, F_EOF_WITH_LAST}, {{B({IAC, SB, 31, 0, 80, 0, 24, IAC})}, F_SHUTWR_WITH_LAST}, {{B({IAC, DO})}, F_EOF_WITH_LAST} };
+    for (auto &t : ts) for (int by : {0, (int)F_BYSTANDER}) if (sw.mine()) { Case c; c.family = by ? "teardown-eof-second-client" : "teardown-eof"; c.flags = t.flags | by; c.segs = t.segs; sw.eval(c); }
+  }
+  // family "second-client": another client is connected and has typed "p 7" without Enter while this client sends every frame (every
+  // 2-way segmentation) and every teardown input; afterwards the other client presses Enter and must be answered exactly once
+  for (auto &f : fr) sw.splits(f, "frames-second-client", F_PROBE | F_BYSTANDER);
+  for (auto &segs : std::vector<std::vector<std::string>>{{"exit\r\n"}, {"quit\r\n"}, {"exit\r\nexit\r\n"}, {"exit\r\n", "exit\r\n"}, {"p 1\r\nexit\r\np 2\r\n"}, {"exit;exit\r\n"}, {"exit\r\n!!\r\n"}})
+    if (sw.mine()) { Case c; c.family = "teardown-second-client"; c.flags = F_BYSTANDER; c.segs = segs; sw.eval(c); }
   // family "sweep": every byte string over the alphabet, shortest first, every 2-way segmentation
   for (size_t len = 1; len <= maxlen && !sw.capped; len++) {
     sw.cur_len = len; std::vector<int> ix(len, 0);
